@@ -364,6 +364,28 @@ Section Machine.
     seq2 (heal_prog qs)
          (fun w => mt_loop v mem t (filter (absent w) ds) (filter (absent w) forder) w).
 
+  (* ---- transfer(..., hardlink=True): workspace files are LINKED into the store ----
+     generic.transfer with links [reflink; hardlink; copy]: the reflink attempt (probe at the final name)
+     for the first file only, then os.link(src, final) per file (an empty file is created, not linked).
+     A link puts the complete content under the final name in one system call; the machine has no
+     separate step for it: it is the atomic composition [CreateTmp t; WriteTmp t b; Rename t o] of a
+     virtual temp name (the intermediate states are not observable; proving them safe too only
+     strengthens the theorems).  The directory object still comes from memory (EXDEV -> copy). *)
+  Definition link_block (t : N) (it : oid * bytes) : list astep :=
+    [Mkdir (pfx (fst it)); CreateTmp t; WriteTmp t (snd it); Rename t (fst it)].
+  Fixpoint link_blocks (t : N) (l : items) : list astep :=
+    match l with [] => [] | it :: r => link_block t it ++ link_blocks (t + 1) r end.
+  Definition ladd_prog (chk : bool) (t : N) (its : items) (w : world) : list astep :=
+    let todo := if chk then filter (absent w) its else its in
+    let req := dedup (map fst its) in
+    map Mkdir (dedup (map (fun it => pfx (fst it)) todo)) ++ probe_of todo ++ link_blocks t todo ++
+    map Chmod req ++ [StateSave (self_rows req)].
+  Definition lfiles_add (t : N) (files : items) : prog :=
+    fun w => match filter (absent w) files with [] => [] | new => ladd_prog false t new w end.
+  Definition ltransfer_prog (t : N) (qs : list oid) (files : items) (d : oid * bytes) : prog :=
+    seq2 (heal_prog qs)
+         (fun w => seq2 (lfiles_add t files) (dir_add true (t + nlen (filter (absent w) files)) d) w).
+
   (* build(upload=True): every file first goes to a temp name at the store root *)
   Fixpoint upload_tmps (t : N) (files : items) : list astep :=
     match files with
@@ -441,7 +463,8 @@ Inductive scen : Type :=
 | ScTransfer (v mem : bool) (t : N) (qs : list oid) (files : list (oid * oid)) (d : oid * oid)
 | ScUpload (v : bool) (t : N) (qs : list oid) (ups files : list (oid * oid)) (d : oid * oid)
 | ScAdd (v chk : bool) (t : N) (its : list (oid * oid))
-| ScMTransfer (v mem : bool) (t : N) (qs : list oid) (ds forder : list (oid * oid)).
+| ScMTransfer (v mem : bool) (t : N) (qs : list oid) (ds forder : list (oid * oid))
+| ScLTransfer (t : N) (qs : list oid) (files : list (oid * oid)) (d : oid * oid).
 
 Record tcase := mkT {
   t_kids : list (oid * list oid);
@@ -461,6 +484,7 @@ Definition scen_prog (K : oid -> list oid) (cpart : oid -> oid) (e : oid) (sc : 
   | ScUpload v t qs ups fs d => upload_prog oid H e cpart v t qs ups fs d
   | ScAdd v chk t its => add_gen oid H e cpart v chk t its
   | ScMTransfer v mem t qs ds fo => mtransfer_prog oid H K e cpart v mem t qs ds fo
+  | ScLTransfer t qs fs d => ltransfer_prog oid H e cpart t qs fs d
   end.
 
 (* [valid ; crash_inv_b at every prefix ; the store (objects, temp contents, valid rows) at every
